@@ -49,6 +49,15 @@ func (s *sites) walkOp(op *Op) {
 		}
 		return
 	}
+	if op.K == "fmtsweep" {
+		// format and literal list belong together
+		s.frozen++
+		for i := range op.A {
+			s.walkVal(&op.A[i])
+		}
+		s.frozen--
+		return
+	}
 	if op.K == "errorfx" {
 		// the directive list refers to operands by position
 		s.frozen++
